@@ -42,9 +42,14 @@ type TLSHelloConn struct {
 func NewTLSHelloConn(conn net.Conn) *TLSHelloConn {
 	return &TLSHelloConn{
 		Conn: conn,
-		br:   bufio.NewReader(conn),
+		br:   bufio.NewReaderSize(conn, maxHelloRecordLen),
 	}
 }
+
+// maxHelloRecordLen is the size of the peek buffer: a record header plus the
+// largest record crypto/tls accepts, so that every ClientHello that fits in
+// one TLS record can be inspected.
+const maxHelloRecordLen = 5 + 16384 + 2048
 
 // Read implements io.Reader
 func (c *TLSHelloConn) Read(buf []byte) (int, error) {
